@@ -43,8 +43,10 @@ Section Proofs.
   Proof.
     unfold graphic, between. intros H.
     apply andb_prop in H. destruct H as [H H3]. apply andb_prop in H. destruct H as [H1 H2]. split.
-    - cbn [cmd_ok]. rewrite H1. unfold char_introducer. cbn [andb]. lia.
-    - cbn [denote]. unfold is_c0, is_c1, between.
+    - cbn [cmd_ok]. exact H1.
+    - cbn [denote]. unfold char_introducer, is_c0, is_c1, between.
+      replace ((ch =? 27) || (ch =? 144) || (ch =? 152) || (ch =? 155) || (ch =? 157) || (ch =? 158) || (ch =? 159))%N
+        with false by lia.
       replace ((ch =? 127) || (ch =? 156))%N with false by lia.
       replace ((ch <? 32) || ((128 <=? ch) && (ch <=? 159)))%N with false by lia. reflexivity.
   Qed.
